@@ -35,7 +35,7 @@ func envOr(k, d string) string {
 }
 
 // packages always loaded from source (pure Go, interpreted)
-var defaultRoots = []string{"errors", "bytes", "strings", "sort", "strconv", "unicode/utf8", "unicode", "math/bits", "encoding/binary", "encoding/hex", "container/list"}
+var defaultRoots = []string{"internal/stringslite", "errors", "bytes", "strings", "sort", "strconv", "unicode/utf8", "unicode", "math/bits", "encoding/binary", "encoding/hex", "container/list"}
 
 type TierCfg struct {
 	Params   map[string]int `json:"params"`
@@ -59,6 +59,7 @@ type CheckCfg struct {
 	Package     string            `json:"package"` // import path of the package the harness is injected into
 	Roots       []string          `json:"roots"`   // further packages loaded from source (bodies interpreted)
 	Harness     []string          `json:"harness"`
+	Extra       map[string][]string `json:"extra_overlays"` // package import path -> helper files injected there
 	Entries     []EntryCfg        `json:"entries"`
 	Stubs       map[string]string `json:"stubs"`
 	Assumptions []string          `json:"assumptions"`
@@ -153,6 +154,17 @@ func overlayFiles(c *CheckCfg, dir string) (map[string][]byte, error) {
 		}
 		b = bytes.Replace(b, []byte("package PKGNAME"), []byte("package "+name), 1)
 		ov[filepath.Join(pkgDir(c), "zz_verif_"+strings.TrimSuffix(filepath.Base(h), ".go")+".go")] = b
+	}
+	// helper files injected into other packages (they carry their own package clause)
+	for pkg, files := range c.Extra {
+		rel := strings.TrimPrefix(pkg, "github.com/33cn/chain33")
+		for _, h := range files {
+			b, err := os.ReadFile(filepath.Join(dir, h))
+			if err != nil {
+				return nil, err
+			}
+			ov[filepath.Join(repoDir, rel, "zz_verif_"+strings.TrimSuffix(filepath.Base(h), ".go")+".go")] = b
+		}
 	}
 	return ov, nil
 }
@@ -314,10 +326,23 @@ func loadKnown() []KnownFinding {
 
 func renderCex(v sym.Violation) string {
 	var parts []string
-	for k, n := range v.Names {
-		if k < len(v.Vector) {
-			parts = append(parts, fmt.Sprintf("%s=%d", n, v.Vector[k]))
+	for k := 0; k < len(v.Names) && k < len(v.Vector); {
+		n := v.Names[k]
+		j := k
+		for j < len(v.Names) && j < len(v.Vector) && v.Names[j] == n && v.Vector[j] < 256 {
+			j++
 		}
+		if j-k >= 4 { // run of byte inputs with one name: print as hex
+			var sb strings.Builder
+			for _, b := range v.Vector[k:j] {
+				fmt.Fprintf(&sb, "%02x", b)
+			}
+			parts = append(parts, n+"=0x"+sb.String())
+			k = j
+			continue
+		}
+		parts = append(parts, fmt.Sprintf("%s=%d", n, v.Vector[k]))
+		k++
 	}
 	return strings.Join(parts, " ")
 }
@@ -334,6 +359,7 @@ func finish(id, tier string, seed int, t0 time.Time, c *CheckCfg, dir string, ld
 	var samples []interface{}
 	pruned := 0
 	entrySummaries := []map[string]interface{}{}
+	os.RemoveAll(filepath.Join(verifDir, "replays", id))
 	os.MkdirAll(filepath.Join(verifDir, "replays", id), 0755)
 	nviol := 0
 	var valCases []replayCase
